@@ -221,6 +221,11 @@ def rule_e4(ctx):
     app = [c for c in calls_in(lp) if isinstance(c.func, ast.Attribute) and c.func.attr == "append"]
     ok = len(app) == 1 and src(app[0].args[0]) == "{formula.bound_variable: (in_path + path, subtree)}"
     ctx.check(ok, "E4-domain", construct, "assignment = (absolute path, subtree)", site(lp), f"found {src(app[0].args[0]) if app else None}", "absolute path and subtree")
+    # the enumeration itself is unconditional (apart from the with/without match expression split): any further guard empties the domain for some trees
+    extra = [(x.text, x.positive) for x in facts(lp) if x.text not in ("formula.bind_expression is None", "isinstance(formula, QuantifiedFormula)", "isinstance(formula.in_variable, DerivationTree)")]
+    ctx.check(not extra, "E4-domain", construct, "domain enumeration not guarded by further conditions", site(lp),
+              f"the scan of the sub-trie only runs under {extra}: for trees where the guard is false the quantifier's domain is empty although matching nodes exist (e.g. a non-reflexive "
+              "reachability test loses the in-tree's own root: `forall <digit> d: exists <digit> e in d: ...`)", "unconditional enumeration")
     brk = [n for n in ast.walk(lp) if isinstance(n, (ast.Break, ast.Continue, ast.Return))]
     ctx.check(not brk, "E4-domain", construct, "no early exit from the domain loop", site(lp), "break/continue/return truncates the quantifier domain", "complete enumeration")
     mm = [c for c in calls_in(f) if call_name(c) == "matches_for_quantified_formula"]
